@@ -770,8 +770,9 @@ def javac_crash_case():
         files = {'%s/src/abyss/Main.java' % root: 'package src.abyss;\nclass Main { static int s = %s; }\n' % deep,
                  '%s/src/able/Main.java' % root: 'package src.able;\nclass Main {\n  static int f() { return "a"; }\n}\n'}
         out, rc = run_javac(files, ['-nowarn'], root)
-        if JAVAC_RES + 'java.lang.StackOverflowError\n\tat jdk.compiler/com.sun.tools.javac' not in out \
-                and JAVAC_RES + 'java.lang.StackOverflowError\n\tat com.sun.tools.javac' not in out:
+        # the frame in which the stack overflows differs from run to run (it may be a java.base frame called by javac):
+        # the trace must start with some frame and contain a javac frame
+        if JAVAC_RES + 'java.lang.StackOverflowError\n\tat ' not in out or 'com.sun.tools.javac' not in out:
             raise GrammarMismatch('javac did not overflow its stack as expected: %r' % out[:300])
         bad = compare('java', out, [], True, {})
         if bad:
